@@ -197,10 +197,12 @@ pub assume_specification<T, K: IntoHeaderName>[ HeaderMap::<T>::insert::<K> ](h:
     ensures hm_view(final(h)) == without(hm_view(old(h)), key_view(k)).push((key_view(k), v));
 /// what `value.try_into()` turns a header value argument into (bytes of the resulting HeaderValue)
 pub uninterp spec fn into_hv_bytes<V>(v: V) -> Seq<u8>;
+/// whether `value.try_into()` succeeds (a valid header value)
+pub uninterp spec fn into_hv_ok<V>(v: V) -> bool;
 /// `value.try_into()` for `V: TryInto<HeaderValue>`
 #[verifier::external_body]
 pub fn vp_try_into_hv<V: TryInto<HeaderValue>>(value: V) -> (r: std::result::Result<HeaderValue, V::Error>)
-    ensures r matches Ok(v) ==> hv_bytes(&v) == into_hv_bytes(value),
+    ensures r matches Ok(v) ==> hv_bytes(&v) == into_hv_bytes(value), r is Ok <==> into_hv_ok(value),
 { value.try_into() }
 /// &str / String become their bytes, integers their decimal digits (http crate `From` impls)
 #[verifier::external_body] pub broadcast proof fn axiom_into_hv_str(s: &str) ensures #[trigger] into_hv_bytes(s) == str_bytes(s@) { }
